@@ -115,6 +115,16 @@ def r_deleg(f):
                 R.inst(b.ident, "%s(self.%s, ..): index argument is %s" % (want, dimname, show(a1)), ok)
                 if not ok:
                     R.fail(b.ident, "arg:%s" % show(a1), "%s calls %s with index %s, expected self.%s" % (b.ident, want, show(a1), dimname), cb.where(t["span"]))
+                # push_* is insert_*(dim, ..) for every argument: no normal return avoids the delegating call (an early return
+                # for some special input skips insert_*'s own length check)
+                if cb is b:
+                    dom_ = b.dominators()
+                    rets = [rb for rb, bl in enumerate(b.blocks) if bl["term"] and bl["term"]["k"] == "return" and not bl["cleanup"] and rb in b.reachable(0)]
+                    byp = [rb for rb in rets if bi not in dom_.get(rb, set()) and rb != bi]
+                    n += 1
+                    R.inst(b.ident, "every normal return goes through the call of %s" % want, not byp)
+                    if byp:
+                        R.fail(b.ident, "bypass:%s" % want, "%s can return without calling %s (an early return for a special case): the line is neither inserted nor rejected by %s's own checks" % (b.ident, want, want), b.where())
             else:
                 def dim_expr(x):
                     x = strip(x)
@@ -328,6 +338,10 @@ def r_ovf(f):
                             if any(bs is not None and (bs == bi or bs in dom_.get(bi, set())) for bs in bounded_succ):
                                 continue          # n is bounded by a remaining-count on this path: the product cannot wrap
                             bad = (st["span"], st["rv"]["op"])
+            for bi, t, fn in b.calls():
+                if fn and fn["path"].startswith("core::num::") and re.match(r"^(wrapping_|unchecked_)(mul|add|shl)", fn["name"]) and any(x == ("param", 2) for a in t["args"] for x in walk(d.expr(a))):
+                    if not any(bs is not None and (bs == bi or bs in dom_.get(bi, set())) for bs in bounded_succ):
+                        bad = (t["span"], fn["name"])
             used_checked = []
             flag_used = False
             for bi, t, fn in b.calls():
